@@ -226,6 +226,19 @@ Section WorldFacts.
     rewrite Z.eqb_refl. apply load_dump.
   Qed.
 
+  (* ... whatever happened to that path before: earlier dumps of this profiler, dumps of
+     other profilers, foreign writes, deletions, in any order.  In particular a profiler
+     that dumps, sees its file overwritten and dumps again (nothing new recorded) gets its
+     own statistics back. *)
+  Lemma roundtrip_any_history hs (w : world) f :
+    load_stats (dump_stats f (hrun text render bytes dump load st get_stats hs w)) f
+    = Some (snap (hrun text render bytes dump load st get_stats hs w)).
+  Proof. apply roundtrip. Qed.
+
+  Lemma redump_after_foreign_write (w : world) f c :
+    load_stats (dump_stats f (write_file f c (dump_stats f w))) f = Some (snap w).
+  Proof. exact (roundtrip (write_file f c (dump_stats f w)) f). Qed.
+
   (* the profiler is not touched by any output request *)
   Lemma prof_say i (w : world) : prof (say i w) = prof w. Proof. reflexivity. Qed.
   Lemma prof_write f c (w : world) : prof (write_file f c w) = prof w. Proof. reflexivity. Qed.
